@@ -14,7 +14,7 @@ from ..sim.gen import D
 from .c16 import SIMPLE, TASKPOOL
 
 NB = 500
-FUNCS = ["quick", "quick", "gated", "gated", "boom", "not_async", "alt", "alt", "decorated"]
+FUNCS = ["quick", "quick", "gated", "gated", "boom", "not_async", "alt", "alt", "decorated", "pkg"]
 GROUPS = ["G", "H", "None", "True", "0", "@home", "@", "apply-gated-group-0", "map-quick-group-0", "start-group-0", "start-group-1", "nope", "g" * 300, "Ünï-çødé", "a=b", "x,y"]
 SHORT = {  # documented short options: first letter, upper case if taken (ControlParser.add_function_arg)
     "apply": {"args": "-a", "kwargs": "-k", "num": "-n", "group_name": "-g", "end_callback": "-e", "cancel_callback": "-c"},
@@ -32,9 +32,11 @@ def lit(v: Any) -> str:
 
 def gen_value(d: D, cmd: str, pname: str) -> Any:
     if pname == "func":
-        return ["path", "vt.ctl.hmod." + d.pick(FUNCS)]
+        f = d.pick(FUNCS)
+        return ["path", "vt.ctl.hpkg.work" if f == "pkg" else "vt.ctl.hmod." + f]
     if pname in ("end_callback", "cancel_callback"):
-        return ["path", "vt.ctl.hmod." + d.pick(["ecb", "accb", "altcb", "deco_cb"])]
+        f = d.pick(["ecb", "accb", "altcb", "deco_cb", "pkg"])
+        return ["path", "vt.ctl.hpkg.done" if f == "pkg" else "vt.ctl.hmod." + f]
     if pname == "args":
         return ["lit", tuple(d.i(0, 9) for _ in range(d.i(0, 2)))]
     if pname == "kwargs":
@@ -158,7 +160,10 @@ def meant_kwargs(item: dict) -> Dict[str, Any]:
     out: Dict[str, Any] = {}
     for pname, (typ, v) in item["vals"].items():
         if typ == "path":
-            out[pname] = getattr(hmod, v.rsplit(".", 1)[1])
+            # what the path means, resolved independently of the library: the attribute of the (imported) module or package
+            import importlib
+            modname, attr = v.rsplit(".", 1)
+            out[pname] = getattr(importlib.import_module(modname), attr)
         elif typ == "lit":
             out[pname] = ast.literal_eval(lit(v))
         else:
@@ -270,6 +275,11 @@ class C17Engine(Engine):
         def side(via_session: bool):
             async def main() -> dict:
                 hmod.reset()
+                # each side starts like a fresh process as far as the re-exporting package goes: not imported yet
+                import sys
+                for m in [k for k in sys.modules if k == "vt.ctl.hpkg" or k.startswith("vt.ctl.hpkg.")]:
+                    del sys.modules[m]
+                sys.modules["vt.ctl"].__dict__.pop("hpkg", None)
                 pool = make_pool()
                 replies: List[str] = []
                 snaps: List[tuple] = []
